@@ -432,8 +432,26 @@ func init() {
 		}
 		base := c05BaseList[[]int{1, 2, 3, 5, 6, 7, 8, 0, 4}[c.Free(nb, "base")]]
 		file := base.file
-		kind := c.Dev(10, "mutation-kind")
+		kind := c.Dev(11, "mutation-kind")
 		switch kind {
+		case 10: // a length / offset / count head re-encoded with the SAME value in a wider form, or with the value moved
+			// into the high half of an 8-byte argument: a reader that folds argument bytes wrongly sees another number
+			fi := c.Free(len(base.ref.Fields), "field")
+			f := base.ref.Fields[fi]
+			type alt struct {
+				width int
+				v     uint64
+				note  string
+			}
+			alts := []alt{{1, f.Value, "same value, 1 follow byte"}, {2, f.Value, "same value, 2 follow bytes"}, {4, f.Value, "same value, 4 follow bytes"}, {8, f.Value, "same value, 8 follow bytes"},
+				{8, f.Value << 32, "value<<32"}, {8, f.Value<<32 | 7, "value<<32|7"}, {8, 1<<32 | f.Value, "2^32+value"}, {4, f.Value << 16, "value<<16"}}
+			a := alts[c.Free(len(alts), "form")]
+			if a.width == 1 && f.Value > 0xff || a.width == 2 && f.Value > 0xffff || a.width == 4 && a.v > 0xffffffff {
+				return &c05Case{input: file, base: base, op: "unmutated"}
+			}
+			nh := refcbor.AppendHeadWidth(nil, f.Major, a.v, a.width)
+			out := append(append(append([]byte{}, file[:f.Off]...), nh...), file[f.Off+f.Len:]...)
+			return &c05Case{input: out, base: base, op: fmt.Sprintf("field[%d %s] re-encoded: %s", fi, f.What, a.note)}
 		case 9: // a length / offset / count head replaced by a well-delimited item of ANOTHER type
 			fi := c.Free(len(base.ref.Fields), "field")
 			f := base.ref.Fields[fi]
@@ -509,6 +527,12 @@ func init() {
 				{orig.Offset, 1<<63 - 1},
 				{1 << 63, orig.Length},
 				{orig.Offset, orig.Length - 1},
+				// the true value in the HIGH half of an 8-byte argument (a reader that folds only four of the
+				// eight argument bytes sees the true value again)
+				{orig.Offset << 32, orig.Length << 32},
+				{orig.Offset<<32 | 1, orig.Length},
+				{orig.Offset, orig.Length<<32 | 3},
+				{1<<32 | orig.Offset, 1<<32 | orig.Length},
 			}
 			// an entry that reuses ANOTHER entry's offset with a different length (a reader that
 			// caches decoded responses by offset would hand out the other entry's content)
@@ -609,7 +633,7 @@ func init() {
 			si := c.Free(len(r.Sections), "section")
 			exact := r.Sections[si].Length
 			rest := uint64(len(file)) - r.Sections[si].Start
-			vals := []uint64{0, exact - 1, exact + 1, rest, rest + 1, uint64(len(file)), 1 << 32, 1<<63 - 1, 1 << 63, 1<<64 - 1, -r.Sections[si].Start, -r.Sections[si].Start + exact}
+			vals := []uint64{0, exact - 1, exact + 1, rest, rest + 1, uint64(len(file)), 1 << 32, 1<<63 - 1, 1 << 63, 1<<64 - 1, -r.Sections[si].Start, -r.Sections[si].Start + exact, exact << 32, exact<<32 | 7, 1<<32 | exact}
 			v := vals[c.Free(len(vals), "value")]
 			var names []string
 			var lens []uint64
@@ -675,7 +699,7 @@ func init() {
 	register(&mc.Property{
 		ID:          "C05",
 		Level:       "model_checking",
-		Rule:        "choice-tree enumeration of inputs to bundle.Read in watchdog-supervised workers: 7 (quick) / 9 (thorough) base bundles built by the reference encoder (b1/b2, 1-3 exchanges, primary/manifest/signatures sections, a b1 variants entry, two with the sections in an order the repository's writer never produces: manifest ahead of index in a b2 bundle, signatures/manifest ahead of index in b1; one whose responses section is a single response item at offset 0) x one structure-aware mutation: every length/offset/count head replaced by a well-delimited item of another type (null, false, negative integers, empty strings / array / map, a tag, a reserved head, a float); every length/offset/count head of the reference's field map replaced by each of 9 boundary values (0, exact+-1, file size, 2^32, 2^63-1, 2^63, 2^64-1, exact+2^63; thorough: pairs of fields), truncation at every offset, every byte set to 8 values (quick: 00, ff, two bit flips, +1, '+', '-', space) / all 256 (thorough), offset/length pairs whose sum wraps around 2^64, an unknown section inserted consistently at every position (must be stepped over), the section table permuted / an entry duplicated / dropped, an unknown section listed without content. Oracle: refbx.Extract (location-strict, encoding-lenient). Non-trivial = the reference produced a verdict the reader had to match (content equality, must-refuse location, must-accept unknown section); distinct by input hash.",
+		Rule:        "choice-tree enumeration of inputs to bundle.Read in watchdog-supervised workers: 7 (quick) / 9 (thorough) base bundles built by the reference encoder (b1/b2, 1-3 exchanges, primary/manifest/signatures sections, a b1 variants entry, two with the sections in an order the repository's writer never produces: manifest ahead of index in a b2 bundle, signatures/manifest ahead of index in b1; one whose responses section is a single response item at offset 0) x one structure-aware mutation: every length/offset/count head replaced by a well-delimited item of another type (null, false, negative integers, empty strings / array / map, a tag, a reserved head, a float), or re-encoded with the same value in a wider head / with the value moved into the high half of an 8-byte argument; every length/offset/count head of the reference's field map replaced by each of 9 boundary values (0, exact+-1, file size, 2^32, 2^63-1, 2^63, 2^64-1, exact+2^63; thorough: pairs of fields), truncation at every offset, every byte set to 8 values (quick: 00, ff, two bit flips, +1, '+', '-', space) / all 256 (thorough), offset/length pairs whose sum wraps around 2^64, an unknown section inserted consistently at every position (must be stepped over), the section table permuted / an entry duplicated / dropped, an unknown section listed without content. Oracle: refbx.Extract (location-strict, encoding-lenient). Non-trivial = the reference produced a verdict the reader had to match (content equality, must-refuse location, must-accept unknown section); distinct by input hash.",
 		Assumptions: []string{"refbx extracts at least what bundle.Read accepts (any well-formed CBOR head, any key order) and is exact about locations", "inputs the reference can extract but the reader refuses for its own stricter rules (URL syntax, header-name case, ASCII) are not judged", "header maps with duplicate names are not judged (the property does not say which value a reader returns)"},
 		Harnesses:   []*mc.Harness{h},
 		Guard: func(s map[string]*mc.Stats) error {
